@@ -150,6 +150,48 @@ pub fn run(ctx: &mut Ctx) {
                 }
                 Err(p) => ctx.violation(&format!("container/panic/{}", p.signature()), &format!("{:?}", p), replay()),
             }
+            // the same through the Attachable interface of a type that owns a container; then removing one
+            // attachment takes exactly that one away, clearing takes all
+            struct Owner(Attachments);
+            impl Attachable for Owner {
+                fn attachments(&self) -> &Attachments {
+                    &self.0
+                }
+                fn attachments_mut(&mut self) -> &mut Attachments {
+                    &mut self.0
+                }
+            }
+            let r = trap::guard(|| {
+                let mut o = Owner(Attachments::default());
+                let mut ok = !o.has_attachments();
+                for (p, v, c) in &added {
+                    o.add_attachment(p.clone(), v.as_str(), c.as_deref());
+                }
+                ok &= o.has_attachments() != added.is_empty();
+                ok &= env_bytes(&o.attachments().add_to_envelope(base.clone())) == env_bytes(&e);
+                for (p, v, c) in &added {
+                    let d = bc_components::DigestProvider::digest(&Envelope::new_attachment(p.clone(), v, c.as_deref())).into_owned();
+                    ok &= o.get_attachment(&d).map(|a| d32(a) == *d.data()).unwrap_or(false);
+                }
+                if let Some((p, v, c)) = added.first() {
+                    let gone = Envelope::new_attachment(p.clone(), v, c.as_deref());
+                    let d = bc_components::DigestProvider::digest(&gone).into_owned();
+                    let removed = o.remove_attachment(&d);
+                    ok &= removed.map(|x| env_bytes(&x) == env_bytes(&gone)).unwrap_or(false);
+                    ok &= o.get_attachment(&d).is_none() && o.remove_attachment(&d).is_none();
+                    // what is left is everything but that one
+                    let rest = o.attachments().add_to_envelope(base.clone());
+                    ok &= env_bytes(&rest) == env_bytes(&e.remove_assertion(gone));
+                }
+                o.clear_attachments();
+                ok &= !o.has_attachments() && env_bytes(&o.attachments().add_to_envelope(base.clone())) == env_bytes(&base);
+                ok
+            });
+            match r {
+                Ok(true) => {}
+                Ok(false) => ctx.violation("container/attachable-interface", "add / get / remove / clear / has_attachments through the Attachable interface disagree with the attachments that were added", replay()),
+                Err(p) => ctx.violation(&format!("container/panic/{}", p.signature()), &format!("{:?}", p), replay()),
+            }
         }
         // filters: every (vendor?, conformsTo?) combination incl. non-existent values
         let mut vs: Vec<Option<&str>> = vec![None, Some("no.such.vendor")];
